@@ -11,6 +11,7 @@ Unit level (real x690 / puresnmp objects vs. the Lean model `Snmp.Ber`):
   unit-pdu   response PDUs (request-id / error fields at their boundaries, 0..100 bindings) in
              the five forms, read through `GetResponse.value`
   reencode   `bytes()` of a decoded PDU, scoped PDU, USM parameter block and v3 message
+  unit-reenc the same three `decode(...)` + `bytes()` paths octet for octet against `Snmp.Reenc` (well-formed + malformed stream)
 End to end: `Client.multiget` against the reference agent answering in each length form.
 
 Direct oracle: the decoded class and value equal what the independent encoder was given (the
@@ -257,6 +258,93 @@ def reencode_v3(ctx, res):
             res.violate("reencode", {"msg": msg.hex(), "form": form}, "decodable", type(exc).__name__, "a well-formed SNMPv3 message could not be decoded / re-encoded", {"kind": "codec", "what": "reencode"})
 
 
+def _hdr_offsets(b, start=0, end=None, depth=0, out=None):
+    """offsets of the identifier octets of all TLVs (definite lengths), nested ones of constructed TLVs included"""
+    out = [] if out is None else out
+    end = len(b) if end is None else end
+    i = start
+    while i < end and depth < 6:
+        try:
+            tag, content, nxt = B.dec_tlv(b, i)
+        except Exception:  # noqa: BLE001
+            break
+        out.append(i)
+        cstart = nxt - len(content)
+        if tag & 0x20 or (tag == 0x04 and content[:1] == b"\x30"):
+            _hdr_offsets(b, cstart, nxt, depth + 1, out)
+        if nxt <= i:
+            break
+        i = nxt
+    return out
+
+
+SUBST_TAGS = [0x02, 0x04, 0x05, 0x06, 0x30, 0x24, 0x40, 0x41, 0x42, 0x43, 0x44, 0x46, 0x80, 0x81, 0x82, 0xA0, 0xA2, 0xA5, 0xA8, 0x0A, 0x13, 0xC5, 0x01]
+
+
+def reencode_unit(ctx, res, reqs, impls):
+    """unit-reenc: `bytes(Message.decode(m))`, `bytes(ScopedPDU.decode(s))`, `bytes(USMSecurityParameters.decode(p))`
+    octet for octet against the model (`Snmp.Reenc`), on well-formed messages (plain and encrypted payloads, five
+    length forms, flags 0..255 and longer) and on a malformed stream (identifier octets substituted at every TLV
+    header, items dropped, truncations, emptied contents)."""
+    from puresnmp.adt import Message, ScopedPDU
+    from puresnmp_plugins.security.usm import USMSecurityParameters
+
+    rng = ctx.rng
+    dec = {"msg": lambda d: bytes(Message.decode(d)), "scoped": lambda d: bytes(ScopedPDU.decode(d)),
+           "usm": lambda d: bytes(USMSecurityParameters.decode(d))}
+
+    def emit(what, data, kind):
+        r = BL.guarded(lambda: dec[what](data).hex(), 2.0)
+        got = ["ok", r[1]] if r[0] == "ok" else ["error"] if r[0] == "error" else ["hang"]
+        res.count(f"unit-reenc:{what}:{kind}:{got[0]}")
+        reqs.append({"op": "reenc", "what": what, "data": data.hex()})
+        impls.append(("unit-reenc", {"what": what, "kind": kind, "data": data.hex()}, got))
+
+    for i in range(ctx.budget(120, 2500)):
+        form = FORMS[i % len(FORMS)]
+        vbs = [([1, 3, 6, 1, 2, 1, 1, rng.randint(0, 9), 0], rng.choice(O.ALL_VALUES)) for _ in range(rng.randint(0, 3))]
+        pdu = B.enc_pdu(rng.choice([0xA2, 0xA8, 0xA0, 0xA7]), rng.randrange(2**31), 0, 0, vbs, form)
+        eid = bytes(rng.randrange(256) for _ in range(rng.choice([0, 5, 12, 32, 120, 127, 130])))
+        ctxname = bytes(rng.randrange(256) for _ in range(rng.choice([0, 3, 40])))
+        scoped = B.enc_scoped(eid, ctxname, pdu, form)
+        user = bytes(rng.randrange(97, 123) for _ in range(rng.choice([0, 4, 32])))
+        auth = bytes(rng.randrange(256) for _ in range(rng.choice([0, 12])))
+        priv = bytes(rng.randrange(256) for _ in range(rng.choice([0, 8])))
+        encrypted = rng.random() < 0.4
+        flags = rng.choice([3, 7]) if encrypted else rng.choice([0, 1, 4, 5])
+        if rng.random() < 0.15:
+            flags = rng.randrange(256)
+        payload = B.tlv(0x04, bytes(rng.randrange(256) for _ in range(rng.choice([0, 1, 16, 127, 200]))), form) if encrypted else scoped
+        boots, time_ = rng.choice([0, 1, 127, 128, 2**31 - 1, rng.randrange(2**31)]), rng.choice([0, 255, 256, 2**31 - 1, rng.randrange(2**31)])
+        mid = rng.choice([0, 1, 127, 128, 255, 256, 32767, 32768, 2**31 - 1, rng.randrange(2**31)])
+        msg = B.enc_v3_message(mid, rng.choice([484, 65507, 2**31 - 1]), flags, eid, boots, time_, user, auth, priv, payload, form)
+        if rng.random() < 0.3:
+            msg += bytes(rng.randrange(256) for _ in range(rng.randint(1, 4)))   # octets behind the message
+        spb = B.dec_seq(B.dec_tlv(msg)[1])[2][1]
+        emit("msg", msg, "wf-enc" if encrypted else "wf-plain")
+        emit("scoped", scoped, "wf")
+        emit("usm", spb, "wf")
+        # malformed stream
+        for what, base in (("msg", msg), ("scoped", scoped), ("usm", spb)):
+            offs = _hdr_offsets(base)
+            for _ in range(2 if what == "msg" else 1):
+                m = bytearray(base)
+                kind = rng.choice(["tag", "tag", "tag", "trunc", "byte", "len0"])
+                if kind == "tag" and offs:
+                    m[rng.choice(offs)] = rng.choice(SUBST_TAGS)
+                elif kind == "trunc":
+                    m = m[: rng.randrange(len(m))]
+                elif kind == "len0" and offs:
+                    o = rng.choice(offs)
+                    if o + 1 < len(m) and m[o + 1] < 128:
+                        # empty this TLV: drop its content and fix nothing else (outer lengths now overshoot)
+                        del m[o + 2 : o + 2 + m[o + 1]]
+                        m[o + 1] = 0
+                elif len(m):
+                    m[rng.randrange(len(m))] = rng.randrange(256)
+                emit(what, bytes(m), "mut-" + kind)
+
+
 def e2e(ctx, res):
     for i in range(ctx.budget(200, 5000)):
         form = FORMS[i % len(FORMS)]
@@ -343,11 +431,21 @@ def run(ctx):
     unit_pdus(ctx, res, reqs, impls)
     unit_msgs(ctx, res, reqs, impls)
     reencode_v3(ctx, res)
+    reencode_unit(ctx, res, reqs, impls)
     e2e(ctx, res)
     if ctx.driver_ok:
         for (suite, case, got), ans in zip(impls, run_driver(reqs, timeout=1200)):
             res.case(suite, case)
-            if suite in ("unit-val", "unit-pdu"):
+            if suite == "unit-reenc":
+                model = ans.get("ok", ans)
+                if isinstance(model, list) and model[:1] == ["error"]:
+                    if model[1] == ["other", "unmodelled"]:
+                        res.count("unit-reenc:unmodelled-skipped")
+                        continue
+                    model = ["error"]
+                if model != got:
+                    res.disagree(suite, case, got, model)
+            elif suite in ("unit-val", "unit-pdu"):
                 model = BL.model_outcome(ans)
                 if tuple(model) != tuple(got):
                     res.disagree(suite, case, got, model)
